@@ -135,6 +135,9 @@ impl World {
                                 OpResult::Unexpected(format!("roundtrip-field: session before {:?} after {:?}", before, after))
                             } else if json2.as_deref() != Some(json.as_str()) {
                                 OpResult::Unexpected("roundtrip-text: the restored session serialises to a different document".to_string())
+                            } else if let Err(e) = crate::dut::reordered_roundtrip(&self.env, &json) {
+                                // the store may hand the members of the document back in another order
+                                OpResult::Unexpected(format!("roundtrip-reordered: {e}"))
                             } else {
                                 self.env.borrow_mut().bump("probe.save-restore");
                                 OpResult::Done
